@@ -198,16 +198,24 @@ def has_try(ms):
 
 def cl_facts(cl, f):
     C = 'CallbackListBase'
+
+    def link_write(m):
+        return (m[1] == 'assign' and m[3] in ('head', 'tail', 'node', 'beforeNode') and
+                any(x in base_names(kids(m[2])[1] if m[2].get('kind') == 'CXXOperatorCallExpr' else kids(m[2])[0])
+                    for x in ('head', 'tail', 'previous', 'next')))
+    # the private link helpers: member functions that write the links and take no lock themselves (doAppend, doInsert, ...)
+    linkers = set()
+    for name, bodies in cl.methods(C).items():
+        mss = [marks(body) for _, body in bodies]
+        if any(link_write(m) for ms in mss for m in ms) and not any(is_var('lock_guard')(m) for ms in mss for m in ms):
+            linkers.add('call:' + name)
     for op in ('append', 'prepend', 'insert'):
         ok = True
         for decl, body in one(cl, C, op):
             ms = marks(body)
             a = first(ms, is_call('doAllocateNode'), '%s: doAllocateNode call' % op, required=False)
             lk = first(ms, is_var('lock_guard'), '%s: lock_guard' % op, required=False)
-            wr = first(ms, lambda m: (m[1] == 'assign' and m[3] in ('head', 'tail', 'node', 'beforeNode') and
-                                      any(x in base_names(kids(m[2])[1] if m[2].get('kind') == 'CXXOperatorCallExpr' else kids(m[2])[0])
-                                          for x in ('head', 'tail', 'previous', 'next')))
-                       or m[1] in ('call:doAppend', 'call:doInsert'), '%s: link step' % op, required=False)
+            wr = first(ms, lambda m: link_write(m) or m[1] in linkers, '%s: link step' % op, required=False)
             if wr is None:
                 raise Untranslatable('CallbackListBase::%s: no write to head/tail/previous/next found' % op)
             # the node is born with the caller's callback (doAllocateNode(callback)) and its callback member is
